@@ -90,8 +90,8 @@ class Ctx:
         elif eng == "strace":
             res = self._run_strace(st)
         elif eng == "valgrind":
-            cmd = ["valgrind", "--error-exitcode=79", "--leak-check=full", "--errors-for-leak-kinds=definite",
-                   "--quiet", os.path.join(self.root, NATIVE_BIN)] + st["args"]
+            cmd = ["valgrind", "--error-exitcode=79", "--leak-check=full", "--errors-for-leak-kinds=definite", "--show-leak-kinds=definite",
+                   "--child-silent-after-fork=no", "--quiet", os.path.join(self.root, NATIVE_BIN)] + st["args"]
             res = self._run(cmd, st, {})
         else:
             raise ValueError(eng)
